@@ -173,10 +173,11 @@ class HttpParser:
                 # We only work with gzip, for any other encoding
                 # type, remove the original header
                 self.del_header(b'content-encoding')
-        # If the request is of type chunked encoding
-        # add post data as chunk
+        # If the request is of type chunked encoding, body is
+        # chunk encoded when the message is (re)built, see
+        # _get_body_or_chunks.  Encoding it here too would
+        # chunk encode the chunked encoding.
         if self.is_chunked_encoded:
-            body = ChunkParser.to_chunks(body)
             self.del_header(b'content-length')
         else:
             self.add_header(
